@@ -184,7 +184,7 @@ func spellMapParam(r *hx.Rand, name, class string) ([]string, MapAbs) {
 	panic(class)
 }
 
-var queryTexts = []string{dumpQuery, dumpQuery, dumpQuery, "{ gated featuresSeen gatedB }", "{ gatedAB requestCost }", "{a}", "{ __typename }", "", "query Q { echoInt(x: 1) }", "{ ü }", "a+b&c=d%e;f#g", "{\n  x\n}", "😀", " "}
+var queryTexts = []string{dumpQuery, dumpQuery, dumpQuery, "{ gated featuresSeen gatedB }", "{ gatedAB requestCost }", "{ a\n", "{ __typename }\n", "query Q(\r\n", "{ x {\n\n", "{ y\r", "{a}", "{ __typename }", "", "query Q { echoInt(x: 1) }", "{ ü }", "a+b&c=d%e;f#g", "{\n  x\n}", "😀", " "}
 
 func spellStrParam(r *hx.Rand, name string, present bool) ([]string, *string) {
 	if !present {
